@@ -1,7 +1,7 @@
 """C10  A solve is a deterministic function of its inputs, independent of history."""
 from . import twin
 
-OWNED = ["C10."]
+OWNED = ["C10.", "C04.cons_jac", "C04.lag_hess", "C04.cons", "C04.obj_grad", "C04.obj"]
 REQUIRED = ["C10.same_solver.trial_steps_identical", "C10.same_solver.same_solution", "C10.same_solver.same_status", "C10.fresh_solver.trial_steps_identical", "C10.fresh_solver.same_solution", "C10.params_object_not_modified", "C10.same_solver.step_controller_starts_in_the_same_state", "C10.fresh_solver.step_controller_starts_in_the_same_state", "C10.real_controllers.same_trial_points_step_sizes_and_penalties", "C10.real_controllers.same_newton_iterates", "C10.real_controllers.same_solution"]
 META = dict(
     functions_encoded=twin.FUNCTIONS,
@@ -27,4 +27,11 @@ def tasks(tier):
             t.append(dict(module="twin", fn="h_repeat_l2", shape=dict(K=K, controller=c, vars=v, cons=[], max_solves=4 if q else 6, fresh_solver=fresh, faults=not q), opts=o))
     if not q:
         t.append(dict(module="twin", fn="h_repeat_l2", shape=dict(K=2, controller="DistanceRatio", vars=["boxed"], cons=["eq0"], max_solves=4), opts=o))
+    # no cache state in the scaling / slack layer between evaluations: the same Transformation
+    # evaluated at a sequence of points whose sparsity patterns differ (same nnz), and at
+    # callbacks handing out cached / memoised objects -- every evaluation equals the reference
+    pbr = [dict(jac=[[0, 0]], hess=[[0, 0], [1, 1]]), dict(jac=[[0, 1]], hess=[[0, 1], [1, 0]]), dict(jac=[[0, 0]], hess=[[0, 0], [1, 1]])]
+    for fmt in ("coo", "csr", "csc"):
+        t.append(dict(module="xform", fn="h_transform", shape=dict(vars=["boxed", "lower"], cons=["ge"], W=2, fmt=fmt, rounds=3, patterns_by_round=pbr), opts=dict(exp_window=(-7, 7))))
+    t.append(dict(module="xform", fn="h_transform", shape=dict(vars=["boxed"], cons=["eqb"], W=1, fmt="coo", policy="memo", rounds=3), opts=dict(exp_window=(-4, 4))))
     return t
